@@ -78,6 +78,11 @@ func driveMux(c *hx.Ctx) error {
 				s.Progs[side] = append(s.Progs[side], prog)
 			}
 		}
+		if i%3 == 0 {
+			// Muxes that were never blocked, and Unblock calls before and during the transfer: no-ops
+			s.Plain = [2]bool{i%2 == 0, i%6 == 0}
+			s.Unblocks = [2]int{1 + i%3, 1 + (i/3)%3}
+		}
 		if i%4 == 1 || i%4 == 2 {
 			// an expired deadline on one of the connections (both transports; the socket honours deadlines on
 			// the trunk): the transfer on all of them must be what it is without it
@@ -314,6 +319,7 @@ func driveMux(c *hx.Ctx) error {
 	}
 	skippedCheck(c)
 	c.Stats.Rule = "mux_bytes: 1-5 connection ids (incl. 1, 2 and the highest uint32), 1-4 concurrent writer goroutines per side each issuing 1-8 Writes of 0..600 bytes to random ids, both directions at once, queue lengths 1,2,3,8,256 with readers that keep up (credit flow control), net.Pipe and unix socketpair alternating; the recorded trunk bytes, the serialisation found by parsing them and every Read result are compared byte for byte inside Coq. " +
+		"In a third of the mux_bytes scenarios the Muxes get extra Unblock() calls just before and while the writers write, half of them on Muxes created without WithBlockedRead (never blocked): no-ops (C10_unblocks_change_nothing). " +
 		"In half of the mux_bytes scenarios SetDeadline / SetReadDeadline / SetWriteDeadline with an expired deadline is called on one of the connections of one or both ends just before the writers start: a no-op for the Mux (C10_deadlines_change_nothing), the same comparison applies. " +
 		"mux_sizes: the same with payloads at the chunk boundaries 0,1,max-1,max,max+1,2max-1,2max,2max+1,3max-1,3max and random sizes up to 3*max next to medium traffic; compared in Coq at the level of frame headers (size-level model), content on SHA-256 in the driver. " +
 		"mux_readbuf: one connection, 1-7 frames of 0..600 bytes queued, then one Read per frame with a buffer whose length and capacity are chosen relative to the frame (len < frame <= cap, len = frame, len > frame, len <= cap < frame, len = frame-1 with cap = frame, random); the returned count, error class and buf[:min(n,len)] are compared in Coq with Model.Mux.read_buf_step and judged by holds_readbuf (n <= len(buf) and the whole frame, or ENOMEM and the frame does not fit); non-trivial when some buffer is shorter than its frame. " +
@@ -379,6 +385,12 @@ func emitXfer(c *hx.Ctx, stream string, idx int, s *xferScn, r scnResult, maxp i
 	if n := len(s.Deadlines[0]) + len(s.Deadlines[1]); n > 0 {
 		c.Count("scenarios_with_an_expired_deadline_on_a_connection", 1)
 		c.Count("deadline_calls."+s.Transport, n)
+	}
+	if s.Unblocks[0]+s.Unblocks[1] > 0 {
+		c.Count("scenarios_with_extra_unblock_calls", 1)
+		if s.Plain[0] || s.Plain[1] {
+			c.Count("scenarios_with_unblock_on_a_never_blocked_mux", 1)
+		}
 	}
 	if s.LateReaders {
 		c.Count("late_reader_scenarios", 1)
